@@ -350,8 +350,8 @@ def cross_config(base, other, profile, seed, nseq, maxops):
             fb, fo = engine.CONFIGS[base][1], engine.CONFIGS[other][1]
             ev = ("events" in fb) != ("events" in fo)
             ar = ("32_components" in fb) != ("32_components" in fo)
-            la = [l.rstrip("\n") for l in open(sb["trace"]) if " => " in l or l.startswith("seq ")]
-            lb = [l.rstrip("\n") for l in open(tf) if " => " in l or l.startswith("seq ")]
+            la = [l.rstrip("\n") for l in open(sb["trace"], errors="replace") if " => " in l or l.startswith("seq ")]
+            lb = [l.rstrip("\n") for l in open(tf, errors="replace") if " => " in l or l.startswith("seq ")]
             seqname = "?"
             for x, y in zip(la, lb):
                 if x.startswith("seq "):
